@@ -198,7 +198,9 @@ def check_pairs(ctx, pairs):
     tol = qconv.q(TOL)
     for i, (kind, desc, ta, tb) in enumerate(pairs):
         ra, rb = res[2 * i], res[2 * i + 1]
-        addon_cy = kind == 'neutral' and desc.get('what') == 'zero add-on' and ra['ok'] and rb['snap'] is not None
+        # (only the known abort of the add-on report writer for more than one construction year is tolerated: C09's finding)
+        addon_cy = (kind == 'neutral' and desc.get('what') == 'zero add-on' and ra['ok'] and rb['snap'] is not None
+                    and (rb['ok'] or econ.Run(ra['snap']).cy > 1))
         if not (ra['ok'] and rb['ok'] and ra['snap'] and rb['snap']) and not addon_cy:
             if kind == 'neutral' and ra['ok'] and not rb['ok']:
                 # the neutral element must change nothing - in particular it must not make the run fail
